@@ -77,13 +77,13 @@ def c03_filter(ctx):
 
 def _cfg_fire(tier):
     out = []
-    K = 12 if tier == 'quick' else 40
+    K = 12 if tier == 'quick' else 24
     plan = [('A', 100.0, 'none'), ('A', 100.0, 'two'), ('B', 60.0, 'left'), ('C', 100.0, 'tail'), ('A', 2.0, 'tail30'), ('D', 20.0, 'none')] if tier == 'quick' else \
-        [('A', 100.0, w) for w in ('none', 'head', 'tail', 'left', 'two')] + [('B', 60.0, 'left'), ('B', 60.0, 'none'), ('C', 100.0, 'tail'),
+        [('A', 100.0, w) for w in ('none', 'tail', 'two')] + [('B', 60.0, 'left'), ('C', 100.0, 'tail'),
                                                                            ('C', 100.0, 'head'), ('A', 30.0, 'two'), ('A', 0.5, 'none'), ('A', 2.0, 'tail30'), ('A', 0.5, 'tail30'), ('D', 20.0, 'none'), ('D', 6.0, 'head')]
     for (c, step, wind) in plan:
         rmax = K * step / 2 * 0.95
-        shards = 4 if tier == 'quick' else 16
+        shards = 4 if tier == 'quick' else 8
         for i in range(shards):
             rlo, rhi = rmax * i / shards, rmax * (i + 1) / shards
             if rhi < step * 1.01:
@@ -118,7 +118,7 @@ def _cfg_fire(tier):
          must_reach=['check:one_row_per_multiple', 'check:row_distance_is_multiple', 'check:strictly_increasing', 'check:muzzle_row',
                      'check:default_step_gives_11_rows', 'check:time_step_spacing'],
          bounds='real Calculator.fire on carriers A (.308 G7, none/two winds; 2 ft step with a 30 mph tail wind), B (G1 1250 fps, cross wind), C (G1 930 m/s at 30 deg, tail wind), D (300 fps lofted at 50 deg) with a coarse '
-                'integration step so that the horizon is K <= 12 (quick) / 40 (thorough) integration steps; symbolic range R in (0, Rmax] and record step '
+                'integration step so that the horizon is K <= 12 (quick) / 24 (thorough) integration steps; symbolic range R in (0, Rmax] and record step '
                 'S in [max step, Rmax] as quantity in ft / m / yd or bare float; every cell of the (R, S) plane; also default step and time step',
          assumptions=['floats as reals for the symbolic record arithmetic (row distance = k*S exactly over the reals; the physics runs in true doubles)'],
          outside=['shots other than the carriers (covered by C03.filter inductively)', 'record steps smaller than the integration step'])
